@@ -33,7 +33,7 @@ class CSSProperty:
         self.value = (offset + start, offset + end)
         self.value_tokens = split_value(code[start:end], offset + start)
         self.before = before
-        self.after = offset + delimiter + 1
+        self.after = offset + (delimiter + 1 if delimiter != -1 else end)
 
     def to_json(self):
         return {
